@@ -86,6 +86,11 @@ DECLS1 = [
     "_T{n} = TypeVar('_T{n}', bound={T})\ndef f{n}(a: _T{n}) -> _T{n}: ...\n",
     "_T{n} = TypeVar('_T{n}')\nclass K{n}(Generic[_T{n}]):\n    def m(self, a: {T}) -> _T{n}: ...\n",
     "X{n} = {T}\n",
+    "def f{n}(*, a: {T} = ..., b: {T}) -> None: ...\n",
+    "def f{n}(a: {T} = ..., *args: {T}, b: {T} = ..., c: {T}, **kw: {T}) -> None: ...\n",
+    "class K{n}:\n    @classmethod\n    def __class_getitem__(cls, item: {T}) -> {T}: ...\n    def __init_subclass__(cls, a: {T}) -> None: ...\n    def __new__(cls, a: {T}) -> K{n}: ...\n",
+    "class K{n}:\n    class N:\n        class M:\n            y: {T}\n",
+    "class K{n}:\n    class N: ...\n    class M(A): ...\n\ndef f{n}(a: K{n}.N) -> {T}: ...\n",
 ]
 DECLS2 = [
     "def f{n}(a: {T}, b: {U}) -> {U}: ...\n",
